@@ -89,4 +89,12 @@ theorem C14_nonblocking_waits_only_for_the_link (evs : List Ev) (r : Req) (hr : 
 example : ((runEvents {} [.start 1 1 true 1 3013, .rxAck 0, .start 2 2 true 1 5026, .start 3 3 false 1 7039]).2.map
     fun l => l.filter isWD) = [[.write 1 0 0 1], [], [], [.write 3 0 1 1]] := by decide +kernel
 
+/-! ## across `close()` / `connect()` on the same object: `C14_exclusive` quantifies over every history, `connect` events
+    included.  Blocking request 1 awaits its response; a deliberate reset is in progress when the port is closed (the
+    listeners are kept) and `connect()` opens a new connection; blocking request 2, issued on the new connection, is not
+    written before request 1 has ended (here: by its response timeout) - the lock is the object's, not the connection's -/
+example : ((runEvents {} [.start 1 1 true 1 300013, .rxAck 0, .setReset true, .close, .connect, .setReset false,
+      .start 2 2 true 1 500026, .tick]).2.map fun l => l.filter isWD) =
+    [[.write 1 0 0 1], [], [], [], [], [], [], [.done 1 .timeoutError, .write 2 0 0 1]] := by decide +kernel
+
 end Zboss.Host
